@@ -70,7 +70,7 @@ def obligations(tier):
     C15 = importlib.import_module("props.C15")
     o += [x for x in C15.obligations(tier) if x.name.startswith("mempool_take") or x.name == "mempool_local_alloc"]
     C13 = importlib.import_module("props.C13")
-    o += [x for x in C13.obligations(tier) if x.name == "handle_request"]
+    o += [x for x in C13.obligations(tier) if x.name in ("handle_request", "select_stream")]
     return o
 
 MANIFEST_ENTRY = {
